@@ -2,7 +2,7 @@
    `_asdict_inner` (exact-type hook lookup, dataclass recursion, namedtuple test,
    insertion-order isinstance scan over the registered hooks, str() fallback),
    the DumpMixin.dump_with_* encoders, the generated `cls_asdict` (keys by alias
-   or key transform, tag), marshal_date_time_as (bases_meta.py bind_to), and an
+   or key transform, tag), marshal_date_time_as (bases_meta.py bind_to), the Z rewrite (a trailing +00:00 only), and an
    independent reference encoder `ref_encode` transcribed from the documentation
    (property C03 text).  The hook registry is a parameter; props/C03.v
    instantiates it with the table regenerated from the source.
@@ -145,6 +145,11 @@ Definition dispatch (hooks : list (pstr * pstr)) (v : pv) : hook :=
 
 Definition z_suffix : pstr := S "Z".
 
+(* dump_with_datetime / dump_with_time:  s = o.isoformat();  s[:-6] + 'Z' if s.endswith('+00:00') else s *)
+Definition py_endswith (suf s : pstr) : bool := starts_with (rev suf) (rev s).
+Definition iso_z (s : pstr) : pstr :=
+  if py_endswith utc_off s then firstn (List.length s - 6) s ++ z_suffix else s.
+
 Section Dump.
 Variable hooks0 : list (pstr * pstr).     (* DumpMixin.__DUMP_HOOKS__ *)
 Variable cfg : dcfg.
@@ -211,7 +216,7 @@ Fixpoint dump (v : pv) {struct v} : res pv :=
       match v with VTok t => Ok (VStr (tk_str t)) | _ => unmod "str()" end
   | HIsoZ =>
       match v with
-      | VTok t => Ok (VStr (replace_first utc_off z_suffix (tk_str t)))
+      | VTok t => Ok (VStr (iso_z (tk_str t)))
       | _ => unmod "dump_with_datetime"
       end
   | HTimestamp => match v with VTok t => Ok (VInt (tk_num t)) | _ => unmod "timestamp" end
